@@ -43,12 +43,32 @@ def run(ctx):
         cases.append(("base", "-", "well-typed base %d" % b, text))
         for rule, what, mt in gen_tc.mutants(text, N):
             cases.append(("mutant", rule, what, mt))
+    # the same rules violated inside an imported module: the importing program is well typed, the module is not
+    modfiles = {}
+    for b in range(2 if quick else 12):
+        mname = "mod%d_%d" % (b, rng.randrange(10 ** 6))
+        good = ("pub fn twice(a: int) -> int {\n    return (+ a a)\n}\nshadow twice { assert (== (twice 2) 4) }\n"
+                "pub fn tag(s: string) -> string {\n    return (+ s \"!\")\n}\nshadow tag { assert (== 1 1) }\n")
+        main = ("from \"%s.nano\" import twice, tag\nfn main() -> int {\n    (println (twice %d))\n    (println (tag \"a\"))\n    return 0\n}\nshadow main { assert (== 1 1) }\n"
+                % (mname, rng.randint(1, 99)))
+        variants = [("base", "-", "well-typed module %d" % b, good)]
+        for rule, what, old, new in [("operand-type", "module: + int string", "(+ a a)", "(+ a \"x\")"), ("return-type", "module: string from int fn", "return (+ a a)", "return \"s\""),
+                                     ("unknown-name", "module: variable", "(+ a a)", "(+ a zz_undefined)"), ("unknown-name", "module: function", "(+ a a)", "(zz_nofn a)"),
+                                     ("missing-return", "module: no return", "    return (+ s \"!\")\n", "    (println s)\n"), ("arity", "module: too many", "(+ a a)", "(twice a a)"),
+                                     ("non-bool-condition", "module: if int", "    return (+ a a)\n", "    if a {\n        return 1\n    }\n    return (+ a a)\n")]:
+            variants.append(("mutant", rule, what, good.replace(old, new, 1)))
+        for v, (kind, rule, what, mtext) in enumerate(variants):
+            mn = "%s_v%d" % (mname, v)
+            cases.append((kind, rule, what, main.replace(mname, mn)))
+            modfiles[len(cases) - 1] = (mn + ".nano", mtext)
     tools = ["virt-run", "virt-emit", "nanoc"]
     with tempfile.TemporaryDirectory(prefix="nvc05", dir="/var/tmp") as td:
         jobs = []
         for i, (kind, rule, what, text) in enumerate(cases):
             p = os.path.join(td, "c%d.nano" % i)
             open(p, "w").write(text)
+            if i in modfiles:
+                open(os.path.join(td, modfiles[i][0]), "w").write(modfiles[i][1])
             for t in tools:
                 if t == "nanoc" and quick and kind == "mutant" and i % 3 != 0:
                     jobs.append(None)
@@ -56,7 +76,9 @@ def run(ctx):
                     jobs.append((tdir, t, p))
         with ThreadPoolExecutor(16) as ex:
             res = list(ex.map(lambda j: run_tool(j) if j else None, jobs))
-        mout = common.batch(driver, ["tc " + binascii.hexlify(c[3].encode()).decode() for c in cases], timeout=3000)[0]
+        # the specification checker is single-file: for the module cases it judges the module text
+        mout = common.batch(driver, ["tc " + binascii.hexlify((modfiles[i][1].replace("pub fn", "fn") + "fn main() -> int {\n    return 0\n}\nshadow main { assert (== 1 1) }\n" if i in modfiles else c[3]).encode()).decode()
+                                     for i, c in enumerate(cases)], timeout=3000)[0]
     per_rule = collections.Counter()
     accepted_by = collections.Counter()
     known_used = set()
@@ -99,7 +121,7 @@ def run(ctx):
                     ctx.known(fid, ctx.findings[fid]["what"][:220])
                     known_used.add(fid)
                 continue
-            oracle_fail.append({"rule": rule, "what": what, "tool": t, "why": "rule-violating program is " + bad, "artifact": r["artifact"], "stdout_tail": r["stdout"].decode(errors="replace"),
+            oracle_fail.append({"rule": rule, "what": what, "tool": t, "why": "rule-violating program is " + bad, "module": modfiles.get(i), "artifact": r["artifact"], "stdout_tail": r["stdout"].decode(errors="replace"),
                                 "diag_tail": r["err"], "source": text})
     ctx.cov["base_programs"] = sum(1 for c in cases if c[0] == "base")
     ctx.cov["mutants"] = sum(1 for c in cases if c[0] == "mutant")
@@ -110,7 +132,7 @@ def run(ctx):
     ctx.sample(cases[1][3][:400]); ctx.sample({"theorems": info.get("theorems", [])})
     ctx.cov["rule"] = ("well-typed base programs (random names, constants, optional statements) x every applicable single-point mutation of the rule catalogue (operand/argument type, arity, "
                        "unknown and out-of-scope names, immutable variable/parameter/global, missing return, return type, non-bool condition, undefined field, extern outside unsafe, break "
-                       "outside loop, let type): nanoc, nano_virt --run and nano_virt --emit-nvm must each exit non-zero with a diagnostic and write no file; the Lean specification "
+                       "outside loop, let type), and the same violations placed in an imported module of a well-typed program: nanoc, nano_virt --run and nano_virt --emit-nvm must each exit non-zero with a diagnostic and write no file; the Lean specification "
                        "checker must reject every mutant and accept every base")
     for f in oracle_fail[:3]:
         ctx.violation({"kind": "oracle", "detail": f})
